@@ -138,6 +138,20 @@ Theorem C12_replace_unknown_stays_unknown : forall E f src tgt p, f_density f = 
 Proof. exact replace_unknown_stays_unknown. Qed.
 Print Assumptions C12_replace_unknown_stays_unknown.
 
+(* more than one atom certainly remains after a partial substitution, and after a full one when
+   the formula holds a third atom *)
+Theorem C12_replace_partial_unknown_stays_unknown : forall E f src tgt p ns, src <> tgt ->
+  dget (f_atoms f) src = Some ns -> ~ p == 1 -> f_density f = None ->
+  f_density (f_replace E f src tgt p) = None.
+Proof. exact replace_partial_unknown_stays_unknown. Qed.
+Print Assumptions C12_replace_partial_unknown_stays_unknown.
+
+Theorem C12_replace_third_atom_unknown_stays_unknown : forall E f src tgt p ns b, src <> tgt ->
+  dget (f_atoms f) src = Some ns -> b <> src -> b <> tgt -> In b (keys (f_atoms f)) -> f_density f = None ->
+  f_density (f_replace E f src tgt p) = None.
+Proof. exact replace_third_atom_unknown_stays_unknown. Qed.
+Print Assumptions C12_replace_third_atom_unknown_stays_unknown.
+
 Theorem C12_replace_unknown_single_atom : forall E f src tgt p a c, f_density f = None ->
   f_atoms (f_replace E f src tgt p) = [(a, c)] -> f_density (f_replace E f src tgt p) = e_density E a.
 Proof. exact replace_unknown_single_atom. Qed.
@@ -243,7 +257,10 @@ Print Assumptions C12_enclose_sound.
 (* an implementation double accepted by the check is within (width of the enclosure) + 2^tp * max|bound|
    of the real value of the model expression *)
 Theorem C12_volume_check_sound : forall tp v e p, py_Q v = Some p -> chk_expr_rel tp v e = true ->
-  exists lo hi, enclose e = Some (lo, hi) /    Q2R lo <= evalR no_env_R e <= Q2R hi /    let t := Q2R (Qmax (Qabs lo) (Qabs hi) * D2Q 1 tp) in
-    Q2R lo - t <= Q2R p <= Q2R hi + t /    Rabs (Q2R p - evalR no_env_R e) <= (Q2R hi - Q2R lo) + t.
+  exists lo hi : Q, enclose e = Some (lo, hi) /\
+    Q2R lo <= evalR no_env_R e <= Q2R hi /\
+    let t := Q2R (Qmax (Qabs lo) (Qabs hi) * D2Q 1 tp) in
+    Q2R lo - t <= Q2R p <= Q2R hi + t /\
+    Rabs (Q2R p - evalR no_env_R e) <= (Q2R hi - Q2R lo) + t.
 Proof. exact chk_expr_rel_sound. Qed.
 Print Assumptions C12_volume_check_sound.
